@@ -11,6 +11,7 @@
   `int index` can address.
 -/
 import QlibcModel.Seq.Fifo
+import QlibcModel.Seq.InvLemmas
 namespace Qlibc.Props.C09
 open Qlibc Qlibc.Seq Qlibc.Seq.Spec
 
@@ -210,6 +211,32 @@ theorem history_refines_grow (ops : List GOp) (hlen : ops.length < 2147483648) :
     (({} : QGrow).run ops).2.list.abs = (({} : IList).grun ops).2 :=
   let h := QGrow.run_refines {} QList.WF_empty ops (by simpa using hlen)
   ⟨h.1, h.2.1⟩
+
+/-! ### invalid arguments
+
+  `inv` (Seq/Inv.lean; harness/seq.c makes the same calls): NULL data, size 0, an index just above
+  and just below the valid range for add / get / pop / remove, getnext without a cursor, debug
+  without a stream, get / toarray without the size pointer, setsize with the current value, with
+  SIZE_MAX and back. Every refusal carries the documented errno (EINVAL; ENOBUFS before ERANGE when
+  the list is full; ERANGE; EIO), the permitted calls answer as the plain calls do, and the
+  container is the very same afterwards. -/
+
+theorem inv_identity (l : QList) (hwf : l.WF) (hn : l.num + 2 < 2147483648) :
+    l.inv.st = l ∧ l.inv.log = l.invExpected :=
+  QList.inv_identity l hwf hn
+
+theorem inv_identity_queue (q : QQueue) (hwf : q.list.WF) (hn : q.list.num + 2 < 2147483648) :
+    q.inv.st = q ∧ q.inv.log = invWrappedExpected q.list := by
+  obtain ⟨h1, h2⟩ := invWrapped_identity (-1) q.list hwf hn
+  exact ⟨by simp only [QQueue.inv, h1], h2⟩
+
+theorem inv_identity_stack (q : QStack) (hwf : q.list.WF) (hn : q.list.num + 2 < 2147483648) :
+    q.inv.st = q ∧ q.inv.log = invWrappedExpected q.list := by
+  obtain ⟨h1, h2⟩ := invWrapped_identity 0 q.list hwf hn
+  exact ⟨by simp only [QStack.inv, h1], h2⟩
+
+theorem inv_identity_grow (g : QGrow) (hwf : g.list.WF) : g.inv.st = g ∧ g.inv.log = g.invExpected :=
+  QGrow.inv_identity g hwf
 
 /-! ### non-vacuity: the hypotheses are satisfiable by concrete non-trivial states -/
 
